@@ -224,21 +224,26 @@ def WObj.linearSolve (w : WObj) (matrix : Nat × Nat) (reuse : Bool) : WObj × (
   let s := if setup then matrix else w.solver.getD matrix
   ({ solver := some s }, (s.1, s.2, setup))
 
-/-- the nonlinear iterations: Newton assembles a new matrix `(data, it + 1)` in every iteration (`reuse_solver=False`),
-Bregman keeps the matrix `(data, 1)` and re-uses the solver from the second iteration on (`reuse_solver = iter > 0`) -/
-def WObj.iterations (bregman : Bool) (w : WObj) (data : Nat) : Nat → Nat → WObj × List (Nat × Nat × Bool)
-  | _, 0 => (w, [])
-  | it, n + 1 =>
-    let L := w.linearSolve (data, if bregman then 1 else it + 1) (bregman && decide (it > 0))
-    ((WObj.iterations bregman L.1 data (it + 1) n).1, L.2 :: (WObj.iterations bregman L.1 data (it + 1) n).2)
+/-- the nonlinear iterations.  `kind = 0`: Newton assembles a new matrix `(data, it + 1)` in every iteration
+(`reuse_solver=False`).  `kind = 1`: Bregman keeps the matrix `(data, 1)` and re-uses the solver from the second iteration on
+(`reuse_solver = iter > 0`).  `kind = k ≥ 2`: ADAPTIVE Bregman with the schedule `bregman_update(iter) = ((iter + 1) % k == 0)`:
+when it fires, `_update_regularization` assembles a new matrix `(data, 1 + number of updates)` and the solver is set up again
+(`reuse_solver=False`); otherwise as plain Bregman.  `u` counts the updates so far. -/
+def WObj.iterations (kind : Nat) (w : WObj) (data : Nat) : Nat → Nat → Nat → WObj × List (Nat × Nat × Bool)
+  | _, _, 0 => (w, [])
+  | u, it, n + 1 =>
+    let upd := decide (2 ≤ kind) && decide ((it + 1) % kind = 0)
+    let u' := if upd then u + 1 else u
+    let L := w.linearSolve (data, if kind = 0 then it + 1 else 1 + u') (decide (1 ≤ kind) && decide (it > 0) && !upd)
+    ((WObj.iterations kind L.1 data u' (it + 1) n).1, L.2 :: (WObj.iterations kind L.1 data u' (it + 1) n).2)
 
 /-- `_solve`: the initial Darcy system `(data, 0)` is solved with a freshly set-up solver, then the iterations;
-Bregman ends with the pressure reconstruction, again with a new set-up -/
-def WObj.solve (bregman : Bool) (w : WObj) (data : Nat) (start n : Nat) : WObj × List (Nat × Nat × Bool) :=
+Bregman (plain and adaptive) ends with the pressure reconstruction, again with a new set-up -/
+def WObj.solve (kind : Nat) (w : WObj) (data : Nat) (start n : Nat) : WObj × List (Nat × Nat × Bool) :=
   let I := w.linearSolve (data, 0) false
-  let R := WObj.iterations bregman I.1 data start n
-  if bregman then
-    let F := R.1.linearSolve (data, n + 1) false
+  let R := WObj.iterations kind I.1 data 0 start n
+  if 1 ≤ kind then
+    let F := R.1.linearSolve (data, n + 1000) false
     (F.1, I.2 :: R.2 ++ [F.2])
   else (R.1, I.2 :: R.2)
 
@@ -267,7 +272,7 @@ inductive Op where
   | h1 (s : SolverRef) (mu omega : Coef) (dim channels : Nat) (data : Nat)
   | sb (s : SolverRef) (ell omega : Coef) (dim iters : Nat) (data : Nat)
   | anderson (i : Nat) (datas : List Nat)
-  | distance (i : Nat) (bregman : Bool) (data iters : Nat)
+  | distance (i : Nat) (kind : Nat) (data iters : Nat)
   deriving DecidableEq, Repr
 
 inductive Out where
@@ -340,10 +345,10 @@ def step (restore keep : Bool) (w : World) : Op → World × Out
     match w.aas[i]? with
     | none => (w, .noObject)
     | some a => let (a', rs) := a.run 0 datas; ({ w with aas := setAt w.aas i a' }, .aa rs)
-  | .distance i bregman data iters =>
+  | .distance i kind data iters =>
     match w.ws[i]? with
     | none => (w, .noObject)
-    | some o => let (o', ss) := o.solve bregman data 0 iters; ({ w with ws := setAt w.ws i o' }, .dist ss)
+    | some o => let (o', ss) := o.solve kind data 0 iters; ({ w with ws := setAt w.ws i o' }, .dist ss)
 
 def run (restore keep : Bool) (w : World) : List Op → World
   | [] => w
